@@ -215,10 +215,20 @@ var fragPool = []string{
 	"\u0085", " ", "-- \u0085 --", "--  x  --", ">", ">-- x --", "-", "\xff", "-- \xff --", "--\t--", "-- \t --",
 }
 
+// longLens: line lengths at and around the sizes of buffers a line-oriented scan might use
+var longLens = []int{4095, 4096, 4097, 32767, 32768, 65534, 65535, 65536, 65537, 70000, 131073}
+
 func genLine(t *rapid.T) []byte {
 	n := rapid.IntRange(0, 4).Draw(t, "nfrag")
 	var l []byte
 	for i := 0; i < n; i++ {
+		if rapid.IntRange(0, 299).Draw(t, "long") == 157 {
+			// one very long piece (in a comment, a file body or a name - wherever this line ends up)
+			unit := rapid.SampledFrom([]string{"x", "- ", ">", "ab ", "\u00e9"}).Draw(t, "longunit")
+			k := rapid.SampledFrom(longLens).Draw(t, "longlen")
+			l = append(l, bytes.Repeat([]byte(unit), k/len(unit)+1)[:k]...)
+			continue
+		}
 		if rapid.IntRange(0, 9).Draw(t, "arb") == 0 {
 			bs := rapid.SliceOfN(rapid.Byte(), 0, 4).Draw(t, "bytes")
 			for _, b := range bs {
